@@ -177,4 +177,53 @@ Proof.
   apply validate_json_jws_sound. assumption.
 Qed.
 
+
+Lemma b64url_nonempty x : x <> "" -> String.eqb (b64url_encode x) "" = false.
+Proof. destruct x as [|a x]; [congruence|]. intros _. cbn. destruct x as [|b x]; [reflexivity|]. destruct x; reflexivity. Qed.
+
+(* what serialize_json produces is accepted again, with the merged header; empty signatures (the "none" algorithm)
+   and an unprotected header that is not an object are outside (the library itself refuses them on the way back) *)
+Lemma sign_json_verifies allow private plseg protected unprot rawkey o :
+  json_roundtrip -> sig_correct -> (forall d, json_dumps d <> "") ->
+  (forall alg k m, sign alg k m <> Some "") ->
+  (py_truthy unprot = true -> exists d, unprot = PDict d) ->
+  sign_json allow private plseg protected unprot rawkey = JOk o ->
+  validate_json_jws allow plseg o rawkey = JOk (hmerge protected (match unprot with PDict d => d | _ => [] end), true).
+Proof.
+  intros J C DN SN UD. unfold JWS.sign_json.
+  destruct (validate_private_headers private _); [discriminate|].
+  destruct (prepare allow _ rawkey) as [[alg k]|] eqn:P; [|discriminate].
+  destruct (sign alg k _) as [sg|] eqn:S; [|discriminate].
+  intros H. injection H as <-.
+  unfold JWS.validate_json_jws. cbn [so_protected so_signature so_header otruthy oval].
+  rewrite (b64url_nonempty _ (DN protected)). cbn [negb].
+  assert (sg <> "") by (intros ->; eapply SN; eauto).
+  rewrite (b64url_nonempty _ H). cbn [negb].
+  rewrite (extract_header_encode _ J).
+  assert (U : py_truthy unprot && negb (match unprot with PDict _ => true | _ => false end) = false).
+  { destruct (py_truthy unprot) eqn:T; [|reflexivity]. destruct (UD eq_refl) as [d ->]. reflexivity. }
+  rewrite U.
+  match goal with |- context [JWS.prepare ?a ?b ?c ?h ?r] => replace (JWS.prepare a b c h r) with (@JOk (string * pv) (alg, k)) by (symmetry; exact P) end.
+  unfold extract_segment. rewrite urlsafe_b64decode_encode.
+  rewrite (C _ _ _ _ S). reflexivity.
+Qed.
+
+Theorem json_roundtrip_l allow private payload hs rawkey sigs :
+  json_roundtrip -> sig_correct -> (forall d, json_dumps d <> "") -> (forall alg k m, sign alg k m <> Some "") ->
+  Forall (fun pu => py_truthy (snd pu) = true -> exists d, snd pu = PDict d) hs ->
+  sign_all allow private (b64url_encode payload) hs rawkey = JOk sigs ->
+  deserialize_json allow (Some (b64url_encode payload)) true sigs rawkey =
+    JOk (map (fun pu => hmerge (fst pu) (match snd pu with PDict d => d | _ => [] end)) hs, payload).
+Proof.
+  intros J C DN SN FA H. unfold JWS.deserialize_json, extract_segment. rewrite urlsafe_b64decode_encode.
+  assert (V : validate_all allow (b64url_encode payload) sigs rawkey =
+              JOk (map (fun pu => hmerge (fst pu) (match snd pu with PDict d => d | _ => [] end)) hs, true)).
+  { revert sigs H. induction FA as [|[p u] r Hx FA IH]; intros sigs H; cbn in H.
+    - injection H as <-. reflexivity.
+    - destruct (sign_json allow private (b64url_encode payload) p u rawkey) as [o|] eqn:SJ; [|discriminate].
+      destruct (sign_all allow private (b64url_encode payload) r rawkey) as [os|] eqn:SA; [|discriminate].
+      injection H as <-. cbn [JWS.validate_all map fst snd].
+      rewrite (sign_json_verifies _ _ _ _ _ _ _ J C DN SN Hx SJ). rewrite (IH os eq_refl). reflexivity. }
+  rewrite V. reflexivity.
+Qed.
 End P.
